@@ -1,7 +1,8 @@
 """C03 - multisig passes only with m valid signatures from m different listed keys.
 
 Every ordered sequence of m signature tokens over the token alphabet
-{X.v0, X.v1 : X in listed keys + 2 outsiders} + {BAD}, every m <= n, n <= 5, and
+{X.v0, X.v1 : X in listed keys + 2 outsiders} + {first/last listed key with an explicit
+00 flag byte, garbage with a never-permitted flag 02, BAD}, every m <= n, n <= 5, and
 every permutation of the key list (bounds per tier) is executed through
 OP_CHECK_MULTISIG; the oracle is a maximum matching on the reference validity
 relation (for distinct keys: all tokens by pairwise different listed signers).
@@ -40,8 +41,12 @@ def token_sig(seed, tok):
         r = bytes(s)
     else:
         who, ver = tok
-        if ver == 0:
+        if who == 'GARB':
+            r = env.sym(seed, 'garbage-sig', 64) + b'\x02'
+        elif ver == 0:
             r = refed.sign(seeds[who], f1 + f2)
+        elif ver == 2:      # explicit 00 flag byte: same signer, same message, different bytes
+            r = refed.sign(seeds[who], f1 + f2) + b'\x00'
         else:
             r = refed.sign(seeds[who], f2) + b'\x01'
     _CACHE[key] = r
@@ -50,17 +55,18 @@ def token_sig(seed, tok):
 
 def tokens(n):
     signers = [('L', i) for i in range(n)] + [('O', 0), ('O', 1)]
-    return [(w, v) for w in signers for v in (0, 1)] + ['BAD']
+    extra = [(('L', 0), 2)] + ([(('L', n - 1), 2)] if n > 1 else []) + [('GARB', 3)]
+    return [(w, v) for w in signers for v in (0, 1)] + extra + ['BAD']
 
 
 def expected(seq, n, allowed):
     """'true' | 'false' | 'nottrue'"""
-    flagged = any(t != 'BAD' and t[1] == 1 for t in seq)
-    if flagged and not allowed & 1:
+    flagged = any(t != 'BAD' and (t[1] == 1 and not allowed & 1 or t[1] == 3) for t in seq)
+    if flagged:
         return 'nottrue'  # non-permitted flag: error (or false), never true
     signers = []
     for t in seq:
-        if t == 'BAD' or t[0][0] != 'L' or t[0][1] >= n:
+        if t == 'BAD' or t[0] == 'GARB' or t[0][0] != 'L' or t[0][1] >= n:
             return 'false'
         signers.append(t[0])
     return 'true' if len(set(signers)) == len(signers) else 'false'
@@ -89,7 +95,7 @@ def case_fn(ctx, case):
             ok = got == exp or (exp == 'nottrue' and got in ('false', 'raise'))
             if not ok:
                 kind = 'accepts' if got == 'true' else 'rejects' if exp == 'true' else 'malformed result'
-                why = 'duplicate signer' if exp == 'false' and all(t != 'BAD' and t[0][0] == 'L' for t in seq) else \
+                why = 'duplicate signer' if exp == 'false' and all(t != 'BAD' and t[0] != 'GARB' and t[0][0] == 'L' for t in seq) else \
                       'unlisted/invalid signature' if exp == 'false' else 'disallowed flag' if exp == 'nottrue' else 'honest quorum'
                 ctx.violation({'op': 'CHECK_MULTISIG', 'kind': kind, 'why': why},
                               f'n={n} m={m} keyorder={perm} sigs={seq} allowed={allowed}: expected {exp}, got {got} {r!r} {st}')
@@ -159,7 +165,7 @@ def blocks(tier, seed):
             perms = [ident, ident[::-1]] + ([] if q else [ident[i:] + ident[:i] for i in range(1, n)])
             perms = list(dict.fromkeys(perms))
         for m in range(0, n + 1):
-            for perm in perms:
+            for perm in (perms if not (q and n == 4 and m == 4) else perms[:1]):
                 if m == 0:
                     cases.append((n, m, perm, None))
                 else:
@@ -181,7 +187,7 @@ def blocks(tier, seed):
 def meta(tier, seed):
     q = tier == 'quick'
     return dict(
-        rule='all ordered sequences of m tokens over (2n+5) tokens, m<=n; key orders: all permutations for n<=%d, '
+        rule='all ordered sequences of m tokens over (2n+8) tokens, m<=n; key orders: all permutations for n<=%d, '
              'identity/reversal%s beyond; allowed flags 01 and 00' % (3 if q else 4, '' if q else '/rotations'),
         states_meaning='distinct (n, m, key order, signature sequence, allowed) inputs; transitions = instructions executed',
         bounds={'n_max': 4 if q else 5, 'full_key_permutations_up_to_n': 3 if q else 4},
